@@ -29,11 +29,12 @@ fn kid(k: &[u8]) -> u32 {
 fn wb_run(report: &mut Report, seed: u64, rid: u64, dir: &str) {
     let mut rng = Rng::derive(seed, rid, 0x3b);
     let cpus = [2usize, 4, 6, 8, 10, 12, 14, 16][(rid % 8) as usize];
-    let pattern = (rid / 8) % 4; // 0 small burst, 1 buffer-filling burst, 2 overwrite/delete of durable keys, 3 busy neighbour
+    let pattern = (rid / 8) % 5; // 0 small burst, 1 buffer-filling burst, 2 overwrite/delete of durable keys, 3 busy neighbour, 4 swept TTL keys
     let mut cfg = Cfg::disk(16 + 16384);
     cfg.cpus = cpus;
     cfg.cache = rng.chance(1, 2);
     cfg.sync_io = rng.chance(1, 3);
+    cfg.ttl = pattern == 4;
     let path = format!("{dir}/wb-{rid}.feox");
     let _ = std::fs::remove_file(&path);
     storeutil::ensure_device(&cfg, &path);
@@ -57,6 +58,7 @@ fn wb_run(report: &mut Report, seed: u64, rid: u64, dir: &str) {
     };
     let nkeys = match pattern {
         1 => 1100 * shards.max(1),
+        4 => 40 * shards.max(1),
         _ => 64 * shards.max(1) + rng.usize_below(64),
     };
     // phase 0 for pattern 2: make keys durable first (still without flush: wait for the flusher)
@@ -115,6 +117,59 @@ fn wb_run(report: &mut Report, seed: u64, rid: u64, dir: &str) {
             std::thread::sleep(Duration::from_millis(5));
         }
     };
+    if pattern == 4 {
+        // keys with a 1 s TTL become durable, then expire; the sweeper removes them and their
+        // extents must be retired by the write-behind path alone
+        for i in 0..nkeys {
+            let k = format!("wb-{i:05}").into_bytes();
+            let v = values::make(Tag { key_id: kid(&k), writer: 0, seq: i as u32 }, 100);
+            store.insert_with_ttl(&k, &v, 1).expect("insert_with_ttl");
+        }
+        if let Err((sig, msg)) = wait_drained(&store, "initial fill (ttl)") {
+            if sig == "wb:slow" {
+                report.inconclusive.push(msg);
+            } else {
+                report.violation(sig, msg, replay.clone());
+            }
+            return;
+        }
+        store.start_ttl_sweeper(Some(feoxdb::core::ttl_sweep::TtlConfig { sample_size: 256, expiry_threshold: 0.01, max_iterations: 64, max_time_per_run: Duration::from_millis(20), sleep_interval: Duration::from_millis(1), enabled: true }));
+        feoxdb::verif::advance_clock_ns(3_000_000_000);
+        let t0 = Instant::now();
+        while store.len() > 0 && t0.elapsed() < Duration::from_secs(20) {
+            std::thread::sleep(Duration::from_millis(5));
+        }
+        if store.len() > 0 {
+            report.inconclusive.push(format!("run {rid}: sweeper did not remove all expired keys within 20 s ({} left)", store.len()));
+            return;
+        }
+        report.count("swept_keys", nkeys as u64);
+        match wait_drained(&store, "retirement of swept generations") {
+            Err((sig, msg)) if sig == "wb:slow" => report.inconclusive.push(msg),
+            Err((sig, msg)) => report.violation(sig, msg, replay.clone()),
+            Ok(secs) => {
+                report.max("max_swept_retirement_ms", (secs * 1000.0) as u64);
+                let events = mon.events();
+                let durable = crashimg::build(&base, &events, &Recipe { cut: events.len(), keep: vec![], tear: None });
+                match indep::scan(&durable, None, false) {
+                    Ok(sc) if sc.heads.is_empty() => {
+                        report.nontrivial.insert(fnv_mix(fnv_mix(shards as u64, pattern), sc.markers.len() as u64));
+                        report.count("markers_seen", sc.markers.len() as u64);
+                    }
+                    Ok(sc) => report.violation("wb:swept-not-retired", format!("{} swept generations are still valid records on the device after pending work drained without flush", sc.heads.len()), replay.clone()),
+                    Err(e) => report.violation("wb:decode", format!("independent decode failed: {e}"), replay.clone()),
+                }
+            }
+        }
+        report.evaluations += 1;
+        report.count("runs", 1);
+        report.count(&format!("runs_shards_{shards}"), 1);
+        report.count("runs_pattern_4", 1);
+        hub().unwatch(&mon);
+        drop(store);
+        let _ = std::fs::remove_file(&path);
+        return;
+    }
     if pattern == 2 {
         for i in 0..nkeys {
             put(&store, &mut model, format!("wb-{i:05}").into_bytes(), 100);
@@ -259,7 +314,7 @@ fn wb_run(report: &mut Report, seed: u64, rid: u64, dir: &str) {
     if let Err((sig, msg)) = layout::check_partition(&snap, 3, &[]) {
         report.violation(format!("wb:{sig}"), msg, replay.clone());
     }
-    let pattern_name = ["small burst", "buffer-filling burst", "overwrite/delete of durable keys", "busy neighbour"][pattern as usize];
+    let pattern_name = ["small burst", "buffer-filling burst", "overwrite/delete of durable keys", "busy neighbour", "swept ttl keys"][pattern as usize];
     if report.samples.len() < 2 {
         report.sample(json!({"run": rid, "cpus": cpus, "shards": shards, "pattern": pattern_name, "keys": nkeys, "shard_occupancy_at_last_return": occupancy, "target_durable_s": target_latency, "trace_events": events.len()}));
     }
@@ -457,6 +512,79 @@ pub fn child(args: &Args) -> ! {
             let mut last = Arc::try_unwrap(store).ok();
             timed(&mut || drop(last.take()));
         }
+        // record data writes fail (everything else healthy) while retirements of durable generations
+        // keep running on other workers: the failed-batch scrub and the retirement path take the
+        // device guard and the free-space guard concurrently
+        4 => {
+            let mut cfg = Cfg::disk(16 + 512);
+            cfg.cpus = *rng.pick(&[4usize, 8, 16]);
+            cfg.sync_io = true;
+            storeutil::ensure_device(&cfg, &path);
+            let mon = hub().watch(&path);
+            mon.set_recording(false);
+            let store = Arc::new(storeutil::open(&cfg, Some(&path)).expect("open"));
+            for i in 0..60 {
+                let k = format!("d-{i}").into_bytes();
+                let _ = store.insert(&k, &values::make(Tag { key_id: kid(&k), writer: 0, seq: i }, 300));
+            }
+            let _ = store.flush();
+            hub().set_sched(Some(Arc::new(SchedCtl::new(args.seed ^ rid, 20, 200).target("retire.before_markers", 300, 2000).target("retire.before_release", 300, 1000).target("flush.before_data", 300, 2000).target("flush.before_journal", 200, 1000))));
+            // multi-block record writes fail, single-block ones succeed: threads 0-1 keep rewriting keys with
+            // big values (their batches fail and are scrubbed), threads 2-3 create small keys, let them
+            // become durable and delete them (a steady supply of retirements with markers to write)
+            mon.set_plan(FaultPlan { data_min_len: Some((8192, Fault::Before)), ..Default::default() });
+            let start = 0u32;
+            let stop = Arc::new(AtomicBool::new(false));
+            let mut hs = Vec::new();
+            for w in 0..4u64 {
+                let (s, stop) = (store.clone(), stop.clone());
+                let mut rng = Rng::derive(args.seed, rid, 70 + w);
+                hs.push(std::thread::spawn(move || {
+                    let mut n = 0u64;
+                    let mut worst = 0u64;
+                    while !stop.load(Ordering::Relaxed) {
+                        let t = Instant::now();
+                        if w < 2 {
+                            let k = format!("d-{}", rng.below(8)).into_bytes();
+                            let _ = s.insert(&k, &values::make(Tag { key_id: kid(&k), writer: w as u16, seq: n as u32 }, rng.range(5000, 9000) as usize));
+                            if rng.chance(1, 3) {
+                                let _ = s.flush();
+                            }
+                        } else {
+                            let k = format!("small-{w}-{}", n % 40).into_bytes();
+                            match n % 3 {
+                                0 => {
+                                    let _ = s.insert(&k, &values::make(Tag { key_id: kid(&k), writer: w as u16, seq: n as u32 }, 200));
+                                }
+                                1 => std::thread::sleep(Duration::from_millis(2)),
+                                _ => {
+                                    let k = format!("small-{w}-{}", (n + 20) % 40).into_bytes();
+                                    let _ = s.delete(&k);
+                                }
+                            }
+                        }
+                        worst = worst.max(t.elapsed().as_micros() as u64);
+                        n += 1;
+                    }
+                    (n, worst)
+                }));
+            }
+            std::thread::sleep(Duration::from_millis(rng.range(600, 1200)));
+            stop.store(true, Ordering::Relaxed);
+            for h in hs {
+                let (n, worst) = h.join().expect("thread");
+                calls.set(calls.get() + n);
+                max_call_us.set(max_call_us.get().max(worst));
+            }
+            notes.push(format!("data writes failing from the {start}-th on; faults consumed {}", mon.consumed().len()));
+            mon.clear_plan();
+            hub().set_sched(None);
+            let mut r = String::new();
+            timed(&mut || r = format!("{:?}", store.flush().map_err(|e| storeutil::err_name(&e))));
+            notes.push(format!("flush after the device healed: {r}"));
+            let mut last = Arc::try_unwrap(store).ok();
+            timed(&mut || drop(last.take()));
+        }
         // failing device: persistent failure from some I/O call on, then drop (final flush retry limit)
         _ => {
             let mut cfg = Cfg::disk(16 + 256);
@@ -546,7 +674,7 @@ pub fn run_live(args: &Args, report: &mut Report) {
             let mut local = Report::new("live", "");
             loop {
                 let Some(rid) = queue.lock().pop() else { break };
-                let scenario = rid % 4;
+                let scenario = rid % 5;
                 let replay = json!({"engine": "live", "mode": "live", "seed": seed, "scenario": scenario, "run": rid});
                 let mut child = match std::process::Command::new(&exe)
                     .arg("live-child")
@@ -641,7 +769,7 @@ pub fn run(args: &Args) -> Report {
         if mode == "wb" {
             "write-behind without any explicit flush on stores built with 1..8 shards/workers (CPU visibility 2..16), four patterns (small burst touching every shard; buffer-filling burst >=1024 entries per shard; overwrite/delete of already durable keys; idle vs busy neighbouring keys): after the last call returns the engine only polls the pending-work accessor and the device trace; pending work must reach zero, every accepted write must have an extent, the durable prefix of the trace must recover to exactly the accepted state, superseded generations must be retired (independent decode) and the data area must be exactly partitioned. A stall needs 10 s without drain AND 5 s without device activity. distinct = (shard count, pattern, trace size class)"
         } else {
-            "contention scenarios, each in its own process under a 90 s watchdog whose expiry is judged by a stall signature (no thread consumed CPU for 2 s and none runnable): (0) 2-8 concurrent flush() callers + writers/deleters/readers/scanners on 6 hot keys with 3 ms delays injected at one flusher phase per run; (1) flush racing drop where the flusher thread or the 1 ms TTL sweeper holds the last reference; (2) a 24-block device filled beyond capacity, flushes while full, then deletes + flush must succeed; (3) persistent I/O failure from a seeded call on, 3 threads keep writing/deleting/flushing, then drop with the device still failing. distinct = (scenario, run)"
+            "contention scenarios, each in its own process under a 90 s watchdog whose expiry is judged by a stall signature (no thread consumed CPU for 2 s and none runnable): (0) 2-8 concurrent flush() callers + writers/deleters/readers/scanners on 6 hot keys with 3 ms delays injected at one flusher phase per run; (1) flush racing drop where the flusher thread or the 1 ms TTL sweeper holds the last reference; (2) a 24-block device filled beyond capacity, flushes while full, then deletes + flush must succeed; (3) persistent I/O failure from a seeded call on, 3 threads keep writing/deleting/flushing, then drop with the device still failing; (4) only record-data writes fail while 4 threads update/delete/flush durable keys on 2-8 workers with delays at the journal/data/marker/release points (failed-batch scrub racing retirements), then the device heals. distinct = (scenario, run)"
         },
     );
     if mode == "wb" {
